@@ -171,6 +171,7 @@ pub struct World {
     pub modules: Vec<String>,
     pub mount: String,
     pub kept_alive: Vec<V>,
+    pub failed_record: Option<usize>,
     pub matcher_objs: HashSet<usize>,
     pub printer_objs: HashSet<usize>,
     pub wrote_in_call: bool,
@@ -202,6 +203,7 @@ impl World {
             modules: vec![],
             mount,
             kept_alive: vec![],
+            failed_record: None,
             matcher_objs: HashSet::new(),
             printer_objs: HashSet::new(),
             wrote_in_call: false,
@@ -420,6 +422,7 @@ impl Interp {
                     if env.get(h).is_none() {
                         match h.as_str() {
                             "let*" | "let" | "letrec" => return self.eval_let(h, items, env),
+                            "letrec*" => return self.eval_let("letrec", items, env),
                             "lambda" => {
                                 if items.len() < 3 {
                                     return Err(EvalError::Other("bad lambda".into()));
@@ -435,7 +438,7 @@ impl Interp {
                                         }
                                         v
                                     }
-                                    _ => return Err(EvalError::Other("lambda with non-list formals not supported by the model".into())),
+                                    _ => return Err(EvalError::Unmodelled("lambda with a rest argument".into())),
                                 };
                                 return Ok(V::Lambda(Rc::new(Lambda { params, body: items[2..].to_vec(), env: env.clone() })));
                             }
@@ -538,7 +541,7 @@ impl Interp {
                                 return Ok(quote(&items[1]));
                             }
                             "with-mutex" => {
-                                if !self.w.modules.iter().any(|m| m == "(ice-9 threads)") {
+                                if !self.w.modules.iter().any(|m| m.contains("(ice-9 threads)")) {
                                     // with-mutex is exported by (ice-9 threads); without the import it is unbound in Guile
                                     return Err(EvalError::Unbound("with-mutex (the program does not import (ice-9 threads))".into()));
                                 }
@@ -820,26 +823,39 @@ impl Interp {
                 Ok(V::Bool(ok))
             }
             "+" | "*" => {
-                let mut acc: i128 = if name == "+" { 0 } else { 1 };
+                let (mut n, mut d): (i128, i128) = if name == "+" { (0, 1) } else { (1, 1) };
                 for v in a {
-                    let i = Self::int(v, name)?;
-                    acc = if name == "+" { acc.checked_add(i) } else { acc.checked_mul(i) }.ok_or_else(|| Self::ovf(name))?;
+                    let (vn, vd) = Self::num(v, name)?;
+                    if name == "+" {
+                        n = n.checked_mul(vd).and_then(|x| vn.checked_mul(d).and_then(|y| x.checked_add(y))).ok_or_else(|| Self::ovf(name))?;
+                        d = d.checked_mul(vd).ok_or_else(|| Self::ovf(name))?;
+                    } else {
+                        n = n.checked_mul(vn).ok_or_else(|| Self::ovf(name))?;
+                        d = d.checked_mul(vd).ok_or_else(|| Self::ovf(name))?;
+                    }
+                    let g = gcd(n, d).max(1);
+                    n /= g;
+                    d /= g;
                 }
-                Ok(V::Int(acc))
+                Ok(Self::mkrat(n, d))
             }
             "-" => {
                 if a.is_empty() {
                     return Err(EvalError::Arity("-".into()));
                 }
-                let first = Self::int(&a[0], name)?;
+                let (mut n, mut d) = Self::num(&a[0], name)?;
                 if a.len() == 1 {
-                    return Ok(V::Int(-first));
+                    return Ok(Self::mkrat(-n, d));
                 }
-                let mut acc = first;
                 for v in &a[1..] {
-                    acc = acc.checked_sub(Self::int(v, name)?).ok_or_else(|| Self::ovf(name))?;
+                    let (vn, vd) = Self::num(v, name)?;
+                    n = n.checked_mul(vd).and_then(|x| vn.checked_mul(d).and_then(|y| x.checked_sub(y))).ok_or_else(|| Self::ovf(name))?;
+                    d = d.checked_mul(vd).ok_or_else(|| Self::ovf(name))?;
+                    let g = gcd(n, d).max(1);
+                    n /= g;
+                    d /= g;
                 }
-                Ok(V::Int(acc))
+                Ok(Self::mkrat(n, d))
             }
             "/" => {
                 Self::arity(name, a, 2, 2)?;
@@ -1585,7 +1601,8 @@ impl Interp {
                 Ok(v) => v,
                 Err(e) => {
                     self.w.cur = None;
-                    return Err(EvalError::Other(format!("record {}: {}", i, e)));
+                    self.w.failed_record = Some(i);
+                    return Err(e);
                 }
             };
             let run = RecRun {
